@@ -5755,6 +5755,9 @@ class ConstControlT {
 	template <typename, typename>
 	friend struct QueryWrapperT;
 
+	template <typename, typename, Prong, typename...>
+	friend struct OS_;
+
 protected:
 	using Context			= typename TArgs::Context;
 
@@ -7565,6 +7568,9 @@ class EventControlT final
 
 	template <typename, typename>
 	friend struct PostReactWrapperT;
+
+	template <typename, typename, Prong, typename...>
+	friend struct OS_;
 
 	using FullControl	= FullControlT<TArgs>;
 
@@ -13005,7 +13011,9 @@ OS_<TN_, TA_, NP_, TI_, TR_...>::widePreReact(EventControl& control,
 {
 	TaskStatus status;
 	status |= Initial  ::deepPreReact(control, event);
-	status |= Remaining::widePreReact(control, event);
+
+	if (!control._consumed)
+		status |= Remaining::widePreReact(control, event);
 
 	return status;
 }
@@ -13019,7 +13027,9 @@ OS_<TN_, TA_, NP_, TI_, TR_...>::wideReact(EventControl& control,
 {
 	TaskStatus status;
 	status |= Initial  ::deepReact(control, event);
-	status |= Remaining::wideReact(control, event);
+
+	if (!control._consumed)
+		status |= Remaining::wideReact(control, event);
 
 	return status;
 }
@@ -13033,7 +13043,9 @@ OS_<TN_, TA_, NP_, TI_, TR_...>::widePostReact(EventControl& control,
 {
 	TaskStatus status;
 	status |= Initial  ::deepPostReact(control, event);
-	status |= Remaining::widePostReact(control, event);
+
+	if (!control._consumed)
+		status |= Remaining::widePostReact(control, event);
 
 	return status;
 }
@@ -13046,7 +13058,9 @@ OS_<TN_, TA_, NP_, TI_, TR_...>::wideQuery(ConstControl& control,
 										   TEvent& event) const noexcept
 {
 	Initial  ::deepQuery(control, event);
-	Remaining::wideQuery(control, event);
+
+	if (!control._consumed)
+		Remaining::wideQuery(control, event);
 }
 
 #if HFSM2_PLANS_AVAILABLE()
